@@ -64,6 +64,7 @@ type op struct {
 	gov      func(w *harness.World, h int64, memo string) *harness.TxSpec
 	govPayer int   // validator index whose stake account pays
 	govOut   int64 // whole OLT leaving the payer besides the fee
+	govUser  bool  // opGov sent by user Actor instead of a validator's stake account, free of charge (PROPOSAL_FINALIZE)
 }
 
 type event struct {
@@ -107,7 +108,7 @@ func (o op) build(w *harness.World, h int64, memo string) *harness.TxSpec {
 }
 
 func (o op) payer(w *harness.World) *harness.Account {
-	if o.Kind == opGov {
+	if o.Kind == opGov && !o.govUser {
 		return w.Vals[o.govPayer].Stake
 	}
 	return w.Users[o.Actor]
@@ -174,6 +175,13 @@ var (
 	oDelAllA = op{Name: "delete-all-subs(A,a.ol)", Kind: opDeleteSub, Actor: 0, Domain: nameA, Legit: true, MinDepth: 2}
 )
 
+// a stranger's PROPOSAL_FINALIZE for the price-change proposal: accepted once the proposal has passed (then
+// it does what the block hook would do at the end of that block), refused otherwise. In one block with a
+// renewal it is CHECKED (mempool) before the renewal is DELIVERED: the renewal must still use the price in force.
+var oGovUserFinalize = op{Name: "gov:user-finalize(C)", Kind: opGov, Actor: 2, govUser: true, gov: func(w *harness.World, h int64, memo string) *harness.TxSpec {
+	return gov.ProposalFinalize(propID, w.Users[2], memo)
+}}
+
 func single(o op) event { return event{Name: o.Name, Ops: []op{o}} }
 
 func pair(a, b op) event { return event{Name: a.Name + "+" + b.Name, Ops: []op{a, b}} }
@@ -198,6 +206,9 @@ func Events(tier string) []event {
 		// change - the sub-name walk stopping at the first undecodable record - escaped the one-sub-name alphabet.
 		pair(oSubA, oSubC),
 		pair(oDelSubA, oRenewA),
+		// (added after a seeded change - the renewal reading options cached on the shared store object, which
+		// a mempool check of the finalisation updates early - escaped the alphabet)
+		pair(oRenewA, oGovUserFinalize),
 	}
 	if tier == "thorough" {
 		ev = append(ev,
